@@ -44,6 +44,8 @@ def _fed_by_rec(func, stmt, rec):
 def run(ctx):
     p = ctx.p
     typer = typer_for(ctx)
+    from .common import rule_word_membership
+    rule_word_membership(ctx, typer, [g for g in p.all_funcs if g.module.relpath in ("anytree/exporter/dictexporter.py", "anytree/importer/dictimporter.py", "anytree/node/node.py", "anytree/node/anynode.py")], "X1")
     # ---------------------------------------------------------------- X1
     iav = p.func("DictExporter", "_iter_attr_values")
     ctx.touch(iav)
